@@ -32,6 +32,10 @@ the observed suggestions (or, for the benchmark path, the trial sequence).
       empty history (seeding phase: quasi-random points drawn from the rng),
       not on the model-based call alone (a clipped optimum on the boundary
       may legitimately coincide for all seeds).
+      Shuffled grid only (its docstring: shuffle_seed None = "the given
+      ordering", anything else = shuffled): no seeded order - seed 0 included
+      - equals the unshuffled order; judged when 256 suggestions reveal the
+      whole grid and it has >= 1e12 orderings.
   R3  R1 for `BenchmarkStateFactory(seed)` + `BenchmarkRunner` (trial ids,
       status, parameters, final measurements of all trials) on Branin / BBOB
       (optionally discretised / categorised / shifted / noisy with a noise
@@ -404,7 +408,10 @@ def bench_run(draw, designers=lib.CHEAP):
   # >= 8 suggestions per run (R2 precondition), by construction
   per_repeat = sum(op[1] for op in protocol
                    if op[0] in ('suggest', 'suggest_evaluate'))
-  repeats = max(draw(st.integers(2, 6)), -(-8 // per_repeat))
+  # (shuffled grid: >= 64 suggestions, which reveal >= 64 equally likely
+  # orderings whatever the shuffled axis order is)
+  need = 64 if designer == 'grid' else 8
+  repeats = max(draw(st.integers(2, 6)), -(-need // per_repeat))
   return {
       'designer': designer, 'entry': draw(_entry(designer)),
       'opts': draw(_opts(designer, r2=True)),
@@ -777,7 +784,7 @@ def families(tier):
                   required_classes=lib.CHEAP + (
                       'item_stream', 'item_bench',
                       'two_or_more_parameter_names'),
-                  max_shrink_s={'quick': 60, 'thorough': 240}),
+                  max_shrink_s={'quick': 150, 'thorough': 400}),
       core.Family('cheap', check_cheap, strategy=cheap_strategy,
                   budget={'quick': 1200, 'thorough': 20000},
                   shards={'quick': 8, 'thorough': 16},
